@@ -45,16 +45,12 @@ func (n *SpacelessNode) Render(w io.Writer, ctx *RenderContext) error {
 		}
 	}
 
-	// Apply spaceless filter to the rendered content
-	result, err := ctx.ApplyFilter("spaceless", buf.String())
-	if err != nil {
-		// Fall back to original content on filter error
-		_, err = w.Write(buf.Bytes())
-		return err
-	}
-
-	// Write the processed result
-	_, err = WriteString(w, ctx.ToString(result))
+	// Remove the whitespace between tags. This is what the tag does itself,
+	// not an application of a filter by the template: it is neither subject to
+	// the sandbox's filter list nor replaceable by a registered filter, and it
+	// cannot fail (it used to go through ApplyFilter and to fall back to the
+	// unprocessed body on any error, which hid security violations)
+	_, err := WriteString(w, removeSpacesBetweenTags(buf.String()))
 	return err
 }
 
